@@ -443,6 +443,27 @@ Section RoundTrip.
     destruct (threshold <=? 0); [exact E|].
     destruct (Z.of_nat (length payload) >? threshold); exact E.
   Qed.
+  (* composed with the gzip wrapping: the server recovers the caller's payload on every branch *)
+  Theorem conn_roundtrip_payload (wrap : list Z -> list Z) (unwrap : list Z -> option (list Z))
+          threshold k salt session msg_id seq_no payload rnd :
+    (forall p, unwrap (wrap p) = Some p) ->
+    let h := {| h_salt := salt; h_session := session; h_msg_id := msg_id; h_seq_no := seq_no |} in
+    let body := conn_body threshold payload (wrap payload) in
+    length (ak_id k) = 8%nat -> hdr_ok h ->
+    Z.of_nat (length body) mod 4 = 0 -> Z.of_nat (length body) < 2 ^ 31 ->
+    rnd_enough (32 + Z.of_nat (length body)) rnd ->
+    exists ct q,
+      conn_encrypt sha256 aes_enc threshold k salt session msg_id seq_no payload (wrap payload) rnd = Ok ct /\
+      decrypt_msg sha256 aes_dec Server k ct = Ok (h, q) /\
+      (if (threshold <=? 0) || negb (Z.of_nat (length payload) >? threshold)
+       then q = payload else unwrap q = Some payload).
+  Proof.
+    intros Hw h body Hk Hh H4 Hl Hr.
+    destruct (conn_roundtrip threshold k salt session msg_id seq_no payload (wrap payload) rnd Hk Hh H4 Hl Hr) as (ct & E & D).
+    exists ct, body. split; [exact E|]. split; [exact D|].
+    unfold body, conn_body. destruct (threshold <=? 0); [reflexivity|].
+    destruct (Z.of_nat (length payload) >? threshold); cbn; [apply Hw|reflexivity].
+  Qed.
 End RoundTrip.
 
 Lemma rnd_enough_268 n rnd : 0 <= n -> (268 <= length rnd)%nat -> rnd_enough n rnd.
